@@ -49,12 +49,45 @@ func e2eStateStringDups(a *Association, withDups bool) string {
 	for _, id := range ids {
 		fmt.Fprintf(&sb, " sid %d %s", id, rqDumpString(a.streams[uint16(id)].reassemblyQueue))
 	}
-	fmt.Fprintf(&sb, " A %d", b2i(a.willSendAbort))
+	// streams reset by the peer that still hold unread data (a.detachedStreams, 243f816); emptied entries are
+	// pruned lazily by getMyReceiverWindowCredit and are left out here, so that the pruning moment is invisible
+	det := e2eDetachedWithData(a)
+	fmt.Fprintf(&sb, " D %d", len(det))
+	for _, s := range det {
+		fmt.Fprintf(&sb, " dsid %d %s", s.streamIdentifier, rqDumpString(s.reassemblyQueue))
+	}
+	fmt.Fprintf(&sb, " A %d W %d", b2i(a.willSendAbort), e2eWindow(a))
 	return sb.String()
+}
+
+func e2eDetachedWithData(a *Association) []*Stream {
+	out := []*Stream{}
+	for _, s := range a.detachedStreams {
+		if s.getNumBytesInReassemblyQueue() > 0 {
+			out = append(out, s)
+		}
+	}
+	return out
+}
+
+// e2eWindow recomputes getMyReceiverWindowCredit without its pruning side effect (the dump may run under a read lock).
+func e2eWindow(a *Association) uint32 {
+	var q uint32
+	for _, s := range a.streams {
+		q += uint32(s.getNumBytesInReassemblyQueue())
+	}
+	for _, s := range e2eDetachedWithData(a) {
+		q += uint32(s.getNumBytesInReassemblyQueue())
+	}
+	if q >= a.maxReceiveBufferSize {
+		return 0
+	}
+	return a.maxReceiveBufferSize - q
 }
 
 type e2eStats struct {
 	arrivals, reads, acceptFull, bufferFullEvents, hostile, idataCases, limitCases, smallBufCases int
+	resets, resetsWithData, detachedReads, windowMismatch                                        int
 }
 
 func e2eRunCase(w *bufio.Writer, rng *rand.Rand, name string, nOps int, st *e2eStats) {
@@ -139,9 +172,75 @@ func e2eRunCase(w *bufio.Writer, rng *rand.Rand, name string, nOps int, st *e2eS
 	hostilePct := []int{0, 0, 10}[rng.Intn(3)]
 	released := 3
 	var rst rqGenStats
+	resetRSN := uint32(9000)
 	for i := 0; i < nOps; i++ {
 		if released < len(chunks) && rng.Intn(2) == 0 {
 			released++
+		}
+		if ev := rng.Intn(100); ev < 5 {
+			// inbound RECONFIG: the peer resets its outgoing stream sid; performed at once (lastTSN = cumulative TSN)
+			a.lock.RLock()
+			last := a.peerLastTSN()
+			ids := []int{}
+			for id := range a.streams {
+				ids = append(ids, int(id))
+			}
+			a.lock.RUnlock()
+			sort.Ints(ids)
+			sid := uint16(rng.Intn(nStreams))
+			if len(ids) > 0 && rng.Intn(5) != 0 {
+				sid = uint16(ids[rng.Intn(len(ids))])
+			}
+			a.lock.RLock()
+			if s := a.streams[sid]; s != nil && s.getNumBytesInReassemblyQueue() > 0 {
+				st.resetsWithData++
+			}
+			a.lock.RUnlock()
+			st.resets++
+			resetRSN++
+			fmt.Fprintf(w, "reset %d\n", sid)
+			_ = a.handleChunk(nil, &chunkReconfig{paramA: &paramOutgoingResetRequest{reconfigRequestSequenceNumber: resetRSN,
+				reconfigResponseSequenceNumber: resetRSN, senderLastTSN: last, streamIdentifiers: []uint16{sid}}})
+			if a.getMyReceiverWindowCredit() != e2eWindow(a) {
+				st.windowMismatch++
+			}
+			fmt.Fprintln(w, e2eStateString(a))
+			continue
+		} else if ev < 9 {
+			// the application reads on the Stream object of a detached stream
+			det := e2eDetachedWithData(a)
+			if len(det) == 0 {
+				continue
+			}
+			k := rng.Intn(len(det))
+			s := det[k]
+			b := make([]byte, []int{0, 2, 8, 64, 4096}[rng.Intn(5)])
+			s.lock.Lock()
+			n, ppi, err := s.reassemblyQueue.read(b)
+			s.lock.Unlock()
+			code := 1
+			switch {
+			case err == nil:
+				code = 0
+			case errors.Is(err, io.ErrShortBuffer):
+				code = 2
+			}
+			st.detachedReads++
+			fmt.Fprintf(w, "rdd %d %d %d %d %d", k, len(b), n, uint32(ppi), code)
+			if code == 0 {
+				fmt.Fprintf(w, " %d", n)
+				for _, x := range b[:n] {
+					fmt.Fprintf(w, " %d", x)
+				}
+			} else {
+				fmt.Fprintf(w, " 0")
+			}
+			fmt.Fprintln(w)
+			if a.getMyReceiverWindowCredit() != e2eWindow(a) {
+				st.windowMismatch++
+			}
+			fmt.Fprintln(w, e2eStateString(a))
+			continue
 		}
 		if rng.Intn(100) < 72 {
 			lo := max(0, released-14)
@@ -246,8 +345,9 @@ func TestVerifE2ERecv(t *testing.T) {
 	for c := 0; c < nCases; c++ {
 		e2eRunCase(w, rng, fmt.Sprintf("e%d", c), nOps, st)
 	}
-	fmt.Printf("E2EGEN cases=%d arrivals=%d reads=%d accept_channel_full=%d arrivals_at_zero_credit=%d hostile=%d idata_cases=%d entry_limit_cases=%d small_buffer_cases=%d\n",
-		nCases, st.arrivals, st.reads, st.acceptFull, st.bufferFullEvents, st.hostile, st.idataCases, st.limitCases, st.smallBufCases)
+	fmt.Printf("E2EGEN cases=%d arrivals=%d reads=%d accept_channel_full=%d arrivals_at_zero_credit=%d hostile=%d idata_cases=%d entry_limit_cases=%d small_buffer_cases=%d inbound_resets=%d resets_with_unread_data=%d reads_on_detached=%d window_recomputation_mismatch=%d\n",
+		nCases, st.arrivals, st.reads, st.acceptFull, st.bufferFullEvents, st.hostile, st.idataCases, st.limitCases, st.smallBufCases,
+		st.resets, st.resetsWithData, st.detachedReads, st.windowMismatch)
 }
 
 // TestVerifE2ESpan: the H_ssn hypothesis of c01_ordered_prefix made observable on the implementation.
